@@ -13,7 +13,10 @@ BOUND = ("networks with <= 6(7) variables (exhaustive 1-variable, sampled 2-vari
          "renaming (permutation of the names / order-reversing prefixes / case change), reordering of declarations, 5 kinds of logically equivalent "
          "re-writings, negation encoding of 1-2 variables, bnet -> aeon -> sbml text round trips, renaming to names that need sanitising incl. names that "
          "collide after sanitising; fully expanded (bfs) diagrams compared node by node and edge by edge under the transformation, minimal trap spaces and "
-         "attractor sets (build()) compared state by state")
+         "attractor sets (build()) compared state by state; (declaration order) the same network (2-8 variables) built programmatically as a BooleanNetwork whose variables are "
+         "DECLARED in another order (reversed / rotated / seeded shuffle), optionally with equivalent formulas or with one update function changed; both diagrams fully expanded, or one / both "
+         "only partially (level-limited bfs, size-limited dfs, minimal-space expansion, root only): is_subgraph and is_isomorphic in both directions compared with the explicit "
+         "comparison of node spaces and edges")
 RULE = "non-trivial = the full diagram has at least 3 nodes or the network has a non-fixed-point attractor"
 CASE_TIMEOUT = 60.0
 
@@ -21,7 +24,38 @@ KINDS = ["rename", "reorder", "equivalent", "negate", "format_aeon", "format_sbm
 BAD_NAMES = ["a-b", "a_b", "a.b", "a b", "x{1}", "x_1_", "_x_1_", "é", "g+", "g-"]
 
 
+ORDER_FIRST = families.norm("a, b; b, a; c, d | a; d, c; e, !e & c")  # the instance that revealed the shape
+PARTIALS = [None, ["bfs", None, 0, None], ["bfs", None, 1, None], ["dfs", None, None, 3], ["min", None, None, False], ["succ", 0]]
+
+
+def order_cases(seed, tier):
+    """(declaration order): the same network built programmatically with the variables DECLARED in another order (reversed / rotated / seeded shuffle), optionally
+    with logically equivalent formulas, or with one update function changed (a different network over the same names); both fully expanded, or one of them only partially."""
+    def one(name, bnet, order, equivalent, partial_a, partial_b, edit, tseed):
+        return {"net": name, "bnet": bnet, "kind": "declaration_order", "order": order, "equivalent": equivalent, "partial_a": partial_a, "partial_b": partial_b, "edit": edit, "tseed": tseed}
+
+    for order in ("reverse", "rotate", "shuffle"):
+        for equivalent in (False, True):
+            yield one("order_first", ORDER_FIRST, order, equivalent, None, None, False, seed)
+    for pb in PARTIALS[1:]:
+        yield one("order_first", ORDER_FIRST, "reverse", False, None, pb, False, seed)
+        yield one("order_first", ORDER_FIRST, "shuffle", True, pb, None, False, seed)
+    yield one("order_first", ORDER_FIRST, "reverse", False, None, None, True, seed)
+    for name, bnet in families.network_family(seed, tier, hand_max_vars=8):
+        if len(families.variables(bnet)) < 2:
+            continue
+        rng = random.Random(f"{seed}-{name}-order")
+        for k in range(3 if name in families.HAND else 2):
+            order = ["reverse", "shuffle", "rotate"][k] if k < 3 else "shuffle"
+            pa, pb = (None, None) if k == 0 else rng.choice([(None, rng.choice(PARTIALS[1:])), (rng.choice(PARTIALS[1:]), None), (rng.choice(PARTIALS), rng.choice(PARTIALS))])
+            yield one(name, bnet, order, rng.random() < 0.4, pa, pb, k == 1 and rng.random() < 0.5, rng.randrange(1 << 30))
+
+
 def cases(seed, tier):
+    yield from families.interleave((order_cases(seed, tier), 1), (transform_cases(seed, tier), 3))
+
+
+def transform_cases(seed, tier):
     for name, bnet in families.WEIRD_NAMES.items():
         for kind in KINDS:
             yield {"net": name, "bnet": bnet, "kind": kind, "tseed": seed}
@@ -47,7 +81,92 @@ def observe(sd, net_for_sets=None):
     return ok, spaces, edges, mins, atts
 
 
+def programmatic_network(bnet: str, order: list):
+    """biodivine_aeon.BooleanNetwork with the variables declared in `order` (bnet text would always be sorted alphabetically by the parser)."""
+    import re
+
+    from biodivine_aeon import BooleanNetwork
+
+    rules = dict(families.parse_rules(bnet))
+    bn = BooleanNetwork(list(order))
+    for target in order:
+        for r in sorted(set(re.findall(r"[A-Za-z_][A-Za-z0-9_]*", rules[target])) - {"true", "false"}):
+            bn.add_regulation({"source": r, "target": target, "essential": False, "sign": None})
+    for target in order:
+        bn.set_update_function(target, rules[target])
+    return bn
+
+
+def check_declaration_order(case):
+    """is_subgraph / is_isomorphic between diagrams of networks over the same names declared in different orders must agree with the explicit comparison of
+    node spaces and edges (X is a subgraph of Y iff every node space of X is a node space of Y and every edge of X is an edge of Y)."""
+    import_biobalm()
+    from biobalm import SuccessionDiagram
+    from common import run_step
+
+    net = oracle.Net.from_bnet(case["bnet"])
+    info = net_info(net)
+    info["ref_nodes"] = len(net.full_sd()[1])
+    out = []
+    rng = random.Random(case["tseed"])
+    names = sorted(net.names)
+    if case["order"] == "reverse":
+        order = list(reversed(names))
+    elif case["order"] == "rotate":
+        k = 1 + rng.randrange(max(1, len(names) - 1))
+        order = names[k:] + names[:k]
+    else:
+        order = names[:]
+        while order == names and len(names) > 1:
+            rng.shuffle(order)
+    text_b = case["bnet"]
+    if case["edit"]:
+        v, e = families.random_edit(rng, text_b)
+        text_b = families.replace_rule(text_b, v, e)
+    if case["equivalent"]:
+        text_b = families.t_equivalent(text_b, rng.randrange(1 << 30))[0]
+    A = SuccessionDiagram.from_rules(case["bnet"])
+    bn_b = programmatic_network(text_b, order)
+    # harness self-check: the programmatic network has the intended dynamics and declaration order
+    live, ref_b = oracle.Net.from_bn(bn_b), oracle.Net.from_bnet(text_b)
+    assert [bn_b.get_variable_name(v) for v in bn_b.variables()] == order, "harness: declaration order"
+    for st in range(ref_b.N):
+        d = ref_b.state_dict(st)
+        assert all(ref_b.f(ref_b.idx[v], st) == live.f(live.idx[v], live.state_of(d)) for v in names), "harness: programmatic network has other dynamics"
+    B = SuccessionDiagram(bn_b)
+    for sd_name, partial in (("A", case["partial_a"]), ("B", case["partial_b"])):
+        sd = A if sd_name == "A" else B
+        _, r = run_step(sd, partial if partial is not None else ["bfs", None, None, None])
+        if isinstance(r, dict):
+            return out, info
+
+    def sets(sd):
+        key = {i: skey(sd.node_data(i)["space"]) for i in sd.node_ids()}
+        return set(key.values()), {(key[p], key[c]) for p, c in sd.dag.edges}
+
+    (na, ea), (nb, eb) = sets(A), sets(B)
+    what = (f"A = from_rules(text), B = BooleanNetwork declared in the order {order}" + (", equivalent formulas" if case["equivalent"] else "") + (", one update function changed" if case["edit"] else "")
+            + f"; A expanded by {case['partial_a'] or 'full bfs'} ({len(na)} nodes, {len(ea)} edges), B by {case['partial_b'] or 'full bfs'} ({len(nb)} nodes, {len(eb)} edges)")
+    if not case["edit"] and case["partial_a"] is None and case["partial_b"] is None and (na, ea) != (nb, eb):
+        out.append(fail("diagram_nodes_differ" if na != nb else "diagram_edges_differ", "reordering the declarations (and equivalent formulas) yields an isomorphic succession diagram", what,
+                        observed=sorted(nb), expected=sorted(na)))
+    for label, x, y, ref in (("A.is_subgraph(B)", A, B, na <= nb and ea <= eb), ("B.is_subgraph(A)", B, A, nb <= na and eb <= ea)):
+        got = x.is_subgraph(y)
+        if got != ref:
+            out.append(fail("is_subgraph_differs_from_node_edge_sets", "is_subgraph holds exactly if every node space and every edge of the one diagram is in the other, however the variables are declared",
+                            f"{label}: {what}", observed=got, expected=ref))
+    iso_ref = (na, ea) == (nb, eb)
+    for label, x, y in (("A.is_isomorphic(B)", A, B), ("B.is_isomorphic(A)", B, A)):
+        got = x.is_isomorphic(y)
+        if got != iso_ref:
+            out.append(fail("is_isomorphic_differs_from_node_edge_sets", "is_isomorphic holds exactly if the two diagrams have the same node spaces and edges, however the variables are declared",
+                            f"{label}: {what}", observed=got, expected=iso_ref))
+    return out, info
+
+
 def check_with_info(case):
+    if case["kind"] == "declaration_order":
+        return check_declaration_order(case)
     import_biobalm()
     from biodivine_aeon import BooleanNetwork
     from biobalm import SuccessionDiagram
